@@ -11,7 +11,9 @@ import re
 
 import yaml
 
-STEP_NAMES = ["pre", "run", "post", "sim", "ana", "merge", "a", "b", "c-1", "x_y"]
+STEP_NAMES = ["pre", "run", "post", "sim", "ana", "merge", "a", "b", "c-1", "x_y",
+              # names that already look like script files
+              "run.sh", "a.sh", "b.slurm.sh", "pre.lsf.sh"]
 PARAM_NAMES = ["P", "PRESSURE", "X", "XY", "SIZE", "ITER", "T", "MESH-SIZE", "DT-MAX",
                "P2", "P10", "P02", "RUN1", "RUN01"]
 WORDS = ["echo", "cp", "out.txt", "-n", "4", "&&", "|", "ls", "./sim", "--flag", ">", "log", "'q'",
@@ -32,7 +34,7 @@ def gen_value(rng, kind):
     if kind == "float":
         return rng.choice([0.5, 1.0, 2.25, 1e-3, 100.0, 3.14])
     if kind == "str":
-        return rng.choice(["a", "b", "low", "high", "v1", "x.y", "A_B"])
+        return rng.choice(["a", "b", "low", "high", "v1", "x.y", "A_B", "a.sh", "v1.sh", "low.slurm.sh"])
     if kind == "dots":
         # distinct values made of characters the path sanitiser keeps; they differ in their dot runs
         return rng.choice([".5", "5", "..5", "0.5", "0..5", "5.", "5..", "0...5"])
@@ -133,6 +135,9 @@ def gen_spec(rng, root, adversarial=False, dep_dir=None):
     params = gen_params(rng, adversarial)
     nsteps = rng.randint(1, 6)
     names = rng.sample(STEP_NAMES, nsteps)
+    if nsteps >= 2 and rng.random() < 0.12:
+        # a step named like another step's script file
+        names[1] = names[0] + rng.choice([".sh", ".sh", ".slurm.sh", "lsf.sh"])
     variables = {"OUTPUT_PATH": root}
     labels = {}
     env_tokens = []
@@ -174,6 +179,9 @@ def gen_spec(rng, root, adversarial=False, dep_dir=None):
                 depends.append(p)
             elif r < 0.45:
                 depends.append(p + "_*")
+            elif r < 0.5:
+                # the same parent in both forms: its own combination's instance, and all of them
+                depends.extend(rng.sample([p, p + "_*"], 2))
         # workspace references are only valid for steps staged earlier, i.e.
         # (transitive) dependencies; a few references to unrelated steps
         # exercise the "used before it would be generated" error
@@ -349,7 +357,7 @@ def model_lines(root, hash_ws, rlimit, params, steps, md5):
 # monitors
 
 
-SIMPLE_WS = re.compile(r"\$\(([\w-]+)\.workspace\)")
+SIMPLE_WS = re.compile(r"\$\(([\w.-]+)\.workspace\)")      # step names may hold dots (`run.sh`)
 
 
 def expansion_monitor(params, steps, dag, hash_ws):
